@@ -109,32 +109,43 @@ func (d *vfC04Driver) setFailing(f bool) (failed int) {
 }
 
 // vfC04Snapshot is one atomic picture of all goroutines (runtime.Stack stops the world). The
-// verdicts "delivered" and "never" are read from such a picture, not from a clock. They rest on
+// verdicts "delivered" and "never" are read from such pictures, not from a clock. They rest on
 // one fact about Go channels: a goroutine shown as parked in "select" / "chan receive" found none
 // of its channels ready when it parked, and a later send on one of them would have handed the
 // value over and made it runnable (it would not show as parked any more).
 //
 // Goroutines are recognised by where their code lives, not by function names (unexported names
-// change in refactors):
+// change in refactors). What counts is the goroutine's ENTRY function (outermost frame): a registry
+// loop that is busy inside the driver's ListServiceInstances (harness code) is still a registry loop.
 //
-//	readers: goroutines started by the proxy package itself (a frame in pkg/filters/proxy/*.go,
-//	         no test frame): the pools' service-watch loops, the only readers of watcher channels;
-//	loops:   goroutines living in pkg/object/serviceregistry/*.go only: the registry's per-driver
-//	         loops, the only readers of a driver's notify channel;
+//	readers: entry function in pkg/filters/proxy/*.go (not a test file): the pools' service-watch
+//	         loops, the only readers of watcher channels;
+//	loops:   entry function in pkg/object/serviceregistry/*.go: the registry's per-driver loops, the
+//	         only readers of a driver's notify channel;
 //	blocked dispatcher: any goroutine in state "chan send" whose blocking frame is in
 //	         pkg/object/serviceregistry/: a hand-over to a full watcher channel (the registry
 //	         holds its mutex while dispatching);
-//	senders: harness goroutines blocked handing an event to the registry.
+//	senders: harness goroutines blocked handing an event to the registry;
+//	in flight: any other goroutine than the one taking the picture that is runnable / running / in
+//	         a syscall (this includes goroutines created but never run) and has a frame in
+//	         pkg/object/serviceregistry/ or pkg/filters/proxy/ (the harness files live there too):
+//	         something that could still create, wake or become the missing receiver.
 type vfC04Snapshot struct {
 	dispatcherBlocked string // header of a blocked dispatcher
 	readers, parked   int
 	loops, loopsIdle  int
 	sendersBlocked    int
+	inFlight          int
+	sig               string // ids and states of every goroutine counted above
 }
 
 const (
 	vfC04ProxyDir    = "/pkg/filters/proxy/"
 	vfC04RegistryDir = "/pkg/object/serviceregistry/"
+	// a "never" verdict needs the proof to hold, unchanged, in this many consecutive pictures ...
+	vfC04ConfirmSnapshots = 10
+	// ... spread over at least this much time (paid only when a violation is about to be reported)
+	vfC04ConfirmSpan = 10 * time.Second
 )
 
 var (
@@ -151,6 +162,10 @@ func vfC04Parked(state string) bool {
 	return strings.HasPrefix(state, "select") || strings.HasPrefix(state, "chan receive")
 }
 
+func vfC04Moving(state string) bool {
+	return strings.HasPrefix(state, "runnable") || strings.HasPrefix(state, "running") || strings.HasPrefix(state, "syscall")
+}
+
 func vfC04TakeSnapshot() (s vfC04Snapshot) {
 	s, _ = vfC04TakeSnapshotIDs()
 	return s
@@ -163,23 +178,27 @@ func vfC04TakeSnapshotIDs() (s vfC04Snapshot, ids []string) {
 		vfC04StackBuf = make([]byte, 2*len(vfC04StackBuf))
 		n = runtime.Stack(vfC04StackBuf, true)
 	}
-	for _, g := range strings.Split(string(vfC04StackBuf[:n]), "\n\n") {
+	var sig []string
+	for gi, g := range strings.Split(string(vfC04StackBuf[:n]), "\n\n") {
 		nl := strings.IndexByte(g, '\n')
 		lb := strings.IndexByte(g, '[')
 		if nl < 0 || lb < 0 || lb > nl || !strings.HasPrefix(g, "goroutine ") {
 			continue
 		}
 		id := strings.TrimSpace(g[len("goroutine "):lb])
-		if vfC04Ignored[id] {
+		if vfC04Ignored[id] || gi == 0 { // gi == 0: the goroutine taking the picture
 			continue
 		}
-		head, state := strings.TrimSuffix(g[:nl], ":"), g[lb+1:nl]
+		head, state := strings.TrimSuffix(g[:nl], ":"), strings.TrimSuffix(g[lb+1:nl], "]:")
+		if c := strings.IndexByte(state, ','); c >= 0 {
+			state = state[:c] // drop "N minutes"
+		}
 		// frames of the goroutine itself (the "created by" part names the creator, not the goroutine)
 		body := g[nl:]
 		if cb := strings.Index(body, "\ncreated by "); cb >= 0 {
 			body = body[:cb]
 		}
-		inTest, inProxy, inRegistry, first := false, false, false, ""
+		touches, first, entry := false, "", ""
 		for _, line := range strings.Split(body, "\n") {
 			if !strings.HasPrefix(line, "\t") {
 				continue
@@ -191,42 +210,54 @@ func vfC04TakeSnapshotIDs() (s vfC04Snapshot, ids []string) {
 			if c := strings.LastIndexByte(file, ':'); c >= 0 {
 				file = file[:c]
 			}
-			if first == "" && !strings.Contains(file, "/src/runtime/") && !strings.Contains(file, "/go/src/") && !strings.HasPrefix(file, "runtime/") {
+			if strings.Contains(file, "/src/runtime/") || strings.HasPrefix(file, "runtime/") {
+				continue
+			}
+			if first == "" {
 				first = file
 			}
-			switch {
-			case strings.HasSuffix(file, "_test.go"):
-				inTest = true
-			case strings.Contains(file, vfC04ProxyDir):
-				inProxy = true
-			case strings.Contains(file, vfC04RegistryDir):
-				inRegistry = true
+			entry = file
+			if strings.Contains(file, vfC04ProxyDir) || strings.Contains(file, vfC04RegistryDir) {
+				touches = true
 			}
 		}
 		chanSend := strings.HasPrefix(state, "chan send")
+		counted := false
 		if chanSend && strings.Contains(first, vfC04RegistryDir) {
 			s.dispatcherBlocked = head
-			ids = append(ids, id)
+			counted = true
+			sig = append(sig, "D"+id+":"+state)
 		}
 		switch {
 		case chanSend && strings.Contains(body, "proxy.(*vfC04Driver).send.func"):
 			s.sendersBlocked++
-			ids = append(ids, id)
-		case inTest:
-		case inProxy:
-			ids = append(ids, id)
+			counted = true
+			sig = append(sig, "S"+id+":"+state)
+		case strings.HasSuffix(entry, "_test.go"):
+		case strings.Contains(entry, vfC04ProxyDir):
+			counted = true
 			s.readers++
 			if vfC04Parked(state) {
 				s.parked++
 			}
-		case inRegistry:
-			ids = append(ids, id)
+			sig = append(sig, "R"+id+":"+state)
+		case strings.Contains(entry, vfC04RegistryDir):
+			counted = true
 			s.loops++
 			if vfC04Parked(state) {
 				s.loopsIdle++
 			}
+			sig = append(sig, "L"+id+":"+state)
+		}
+		if counted {
+			ids = append(ids, id)
+		}
+		if touches && vfC04Moving(state) {
+			s.inFlight++
+			sig = append(sig, "F"+id+":"+state)
 		}
 	}
+	s.sig = strings.Join(sig, " ")
 	return s, ids
 }
 
@@ -248,8 +279,13 @@ func vfC04IgnoreLeftovers() {
 	}
 }
 
-// never returns a proof that the pending hand-over / call can never complete, or "".
+// never returns the proof condition (for ONE picture) that the pending hand-over / call can never
+// complete, or "". vfC04Await turns it into a verdict only when it holds unchanged in
+// vfC04ConfirmSnapshots consecutive pictures over vfC04ConfirmSpan.
 func (s vfC04Snapshot) never() (key, proof string) {
+	if s.inFlight > 0 {
+		return "", "" // something could still create, wake or become the receiver
+	}
 	// (1) a dispatcher is blocked on a full watcher channel (holding the registry mutex) and every
 	// goroutine that reads watcher channels is parked: none of their channels is the full one
 	if s.dispatcherBlocked != "" && s.readers == s.parked {
@@ -263,14 +299,16 @@ func (s vfC04Snapshot) never() (key, proof string) {
 	return "", ""
 }
 
-// quiescent: nothing is being dispatched and every reader of a watcher channel is parked, i.e. every
-// event handed over so far has been consumed and applied by the pools.
+// quiescent: nothing is in flight, nothing is being dispatched and every reader of a watcher channel
+// is parked, i.e. every event handed over so far has been consumed and applied by the pools.
 func (s vfC04Snapshot) quiescent() bool {
-	return s.dispatcherBlocked == "" && s.readers == s.parked && s.loops == s.loopsIdle && s.sendersBlocked == 0
+	return s.inFlight == 0 && s.dispatcherBlocked == "" && s.readers == s.parked && s.loops == s.loopsIdle && s.sendersBlocked == 0
 }
 
-// vfC04Await waits until done is closed (and, if settle, until the system is quiescent). A clock
-// only paces the snapshots. In fallback mode (no proofs) it is a plain bounded wait for done.
+// vfC04Await waits until done is closed (and, if settle, until the system is quiescent in two
+// consecutive identical pictures). A clock only paces the pictures and spreads the confirmation of
+// a "never" proof; it never produces a verdict by itself. In fallback mode (no proofs) it is a
+// plain bounded wait for done.
 func vfC04Await(done <-chan struct{}, settle bool, what string) (key, proof string, err error) {
 	if !vfC04Proofs {
 		select {
@@ -282,6 +320,13 @@ func vfC04Await(done <-chan struct{}, settle bool, what string) (key, proof stri
 	}
 	deadline := time.Now().Add(vfC04BarrierTimeout)
 	pause := 50 * time.Microsecond
+	var (
+		streakKey, streakSig string
+		streakN              int
+		streakStart          time.Time
+		quietSig             string
+		quietN               int
+	)
 	for i := 0; ; i++ {
 		finished := false
 		select {
@@ -292,25 +337,47 @@ func vfC04Await(done <-chan struct{}, settle bool, what string) (key, proof stri
 		if finished && !settle {
 			return "", "", nil
 		}
-		if finished || i >= 6 { // do not take snapshots for hand-overs that complete at once
+		if finished || i >= 6 { // do not take pictures for hand-overs that complete at once
 			s := vfC04TakeSnapshot()
 			if finished && s.quiescent() {
-				return "", "", nil
+				if quietN > 0 && s.sig == quietSig {
+					return "", "", nil
+				}
+				quietSig, quietN = s.sig, 1
+			} else {
+				quietN = 0
 			}
 			if k, p := s.never(); k != "" {
-				return k, p, nil
+				if k == streakKey && s.sig == streakSig {
+					streakN++
+				} else {
+					streakKey, streakSig, streakN, streakStart = k, s.sig, 1, time.Now()
+				}
+				if streakN >= vfC04ConfirmSnapshots && time.Since(streakStart) >= vfC04ConfirmSpan {
+					return k, fmt.Sprintf("%s (unchanged in %d consecutive goroutine pictures over %v, nothing in flight in any of them: %s)", p, streakN, time.Since(streakStart).Round(time.Second), s.sig), nil
+				}
+				// a confirmation is running: it needs its full span even if the guard would expire
+				if min := streakStart.Add(vfC04ConfirmSpan + 5*time.Second); deadline.Before(min) {
+					deadline = min
+				}
+			} else {
+				streakKey, streakN = "", 0
 			}
 		}
 		if time.Now().After(deadline) {
-			return "", "", fmt.Errorf("%s did not complete within %v and there is no proof of a permanent block", what, vfC04BarrierTimeout)
+			return "", "", fmt.Errorf("%s did not complete within %v and there is no stable proof of a permanent block", what, vfC04BarrierTimeout)
+		}
+		wait := pause
+		if streakN > 0 {
+			wait = vfC04ConfirmSpan / (vfC04ConfirmSnapshots - 1) // spread the confirming pictures
 		}
 		if !finished {
 			select {
 			case <-done:
-			case <-time.After(pause):
+			case <-time.After(wait):
 			}
 		} else {
-			time.Sleep(pause)
+			time.Sleep(wait)
 		}
 		if pause < 20*time.Millisecond {
 			pause *= 2
